@@ -86,69 +86,68 @@ Definition update_u (h : heap) (dst src : ref) : heap * outcome :=
   | _, _ => (h, Raised EFuel)
   end.
 
-(* deep copy of a value: fresh storages for the leaves, fresh nodes (clone(True)) *)
-Fixpoint deep_clone (fuel : nat) (h : heap) (r : ref) : option (heap * ref) :=
-  match fuel with
-  | 0 => None
-  | S f =>
-      match r with
-      | RLeaf v => let '(h1, v1) := fresh_leaf h (read h v) in Some (h1, RLeaf v1)
-      | RNode n =>
-          match get_node h n with
+Definition empty_node (h : heap) (r : ref) : bool :=
+  match r with
+  | RNode m => match get_node h m with Some nd => match nents nd with [] => true | _ => false end | None => false end
+  | RLeaf _ => false
+  end.
+
+(* map the entries of one node in insertion order, threading the heap; fe = filter_empty (the binary arithmetic
+   family): nested results without any leaf are dropped *)
+Fixpoint map_ents (rec : heap -> ref -> path -> option (heap * ref)) (fe : bool) (pre : path) (h0 : heap)
+  (es : list (string * ref)) : option (heap * list (string * ref)) :=
+  match es with
+  | [] => Some (h0, [])
+  | (k, r') :: t =>
+      match rec h0 r' (pre ++ [k])%list with
+      | None => None
+      | Some (h1, r1) =>
+          match map_ents rec fe pre h1 t with
+          | Some (h2, t2) => Some (h2, if fe && empty_node h1 r1 then t2 else (k, r1) :: t2)
           | None => None
-          | Some nd =>
-              match (fix go (h0 : heap) (es : list (string * ref)) : option (heap * list (string * ref)) :=
-                       match es with
-                       | [] => Some (h0, [])
-                       | (k, r') :: t =>
-                           match deep_clone f h0 r' with
-                           | None => None
-                           | Some (h1, r1) => match go h1 t with Some (h2, t2) => Some (h2, (k, r1) :: t2) | None => None end
-                           end
-                       end) h (nents nd) with
-              | None => None
-              | Some (h1, es1) => let '(h2, m) := alloc_node h1 (mkNode es1 false) in Some (h2, RNode m)
-              end
           end
       end
   end.
 
 (* a tree transformer that keeps the key structure and maps every leaf: new nodes at every level
-   (_fast_apply / _index_tensordict / _clone(recurse=False) ...) *)
-Fixpoint map_tree (fuel : nat) (leaff : heap -> view -> heap * view) (h : heap) (r : ref) : option (heap * ref) :=
+   (_fast_apply / _index_tensordict / _clone ...); lk = lock flag of the new nodes
+   (_fast_apply(propagate_lock=True): the result is locked iff the receiver is) *)
+Fixpoint map_tree (fuel : nat) (lk fe : bool) (leaff : path -> heap -> view -> heap * view) (h : heap) (r : ref) (pre : path)
+  : option (heap * ref) :=
   match fuel with
   | 0 => None
   | S f =>
       match r with
-      | RLeaf v => let '(h1, v1) := leaff h v in Some (h1, RLeaf v1)
+      | RLeaf v => let '(h1, v1) := leaff pre h v in Some (h1, RLeaf v1)
       | RNode n =>
           match get_node h n with
           | None => None
           | Some nd =>
-              match (fix go (h0 : heap) (es : list (string * ref)) : option (heap * list (string * ref)) :=
-                       match es with
-                       | [] => Some (h0, [])
-                       | (k, r') :: t =>
-                           match map_tree f leaff h0 r' with
-                           | None => None
-                           | Some (h1, r1) => match go h1 t with Some (h2, t2) => Some (h2, (k, r1) :: t2) | None => None end
-                           end
-                       end) h (nents nd) with
+              match map_ents (map_tree f lk fe leaff) fe pre h (nents nd) with
               | None => None
-              | Some (h1, es1) => let '(h2, m) := alloc_node h1 (mkNode es1 false) in Some (h2, RNode m)
+              | Some (h1, es1) => let '(h2, m) := alloc_node h1 (mkNode es1 lk) in Some (h2, RNode m)
               end
           end
       end
   end.
 
-Definition lf_same (h : heap) (v : view) : heap * view := (h, v).
-Definition lf_copy (h : heap) (v : view) : heap * view := fresh_leaf h (read h v).
-Definition lf_sub (nb : nat) (bsel : list nat) (h : heap) (v : view) : heap * view := (h, subview v nb bsel).
-Definition lf_gather (nb : nat) (bsel : list nat) (h : heap) (v : view) : heap * view :=
+Definition lf_same (_ : path) (h : heap) (v : view) : heap * view := (h, v).
+Definition lf_copy (_ : path) (h : heap) (v : view) : heap * view := fresh_like h v (read h v).
+Definition lf_sub (nb : nat) (bsel : list nat) (_ : path) (h : heap) (v : view) : heap * view := (h, subview v nb bsel).
+Definition lf_gather (nb : nat) (bsel : list nat) (_ : path) (h : heap) (v : view) : heap * view :=
   fresh_leaf h (read h (subview v nb bsel)).
-Definition lf_un (f : pf) (h : heap) (v : view) : heap * view := fresh_leaf h (map (apf f) (read h v)).
-Definition lf_contig (h : heap) (v : view) : heap * view :=
+Definition lf_un (f : pf) (_ : path) (h : heap) (v : view) : heap * view := fresh_like h v (map (apf f) (read h v)).
+Definition lf_contig (_ : path) (h : heap) (v : view) : heap * view :=
   if contiguousb v then (h, v) else fresh_leaf h (read h v).
+(* deep copy of a value: fresh storages for the leaves, fresh nodes (clone(True)) *)
+Definition deep_clone (fuel : nat) (h : heap) (r : ref) : option (heap * ref) := map_tree fuel false false lf_copy h r [].
+
+(* the receiver's leaf combined with the operand's leaf OF THE SAME KEY (the operand list is aligned by sorting_keys) *)
+Definition lf_bin (f : bf) (lo : list (path * view)) (p : path) (h : heap) (v : view) : heap * view :=
+  match assoc_path lo p with
+  | Some o => fresh_like h v (map2 (abf f) (read h v) (read h o))
+  | None => fresh_like h v (read h v)
+  end.
 
 (* update (base.py:6602), TensorDict target and TensorDict source of the same batch size *)
 Section SetUpdate.
@@ -197,35 +196,35 @@ Fixpoint set_tuple (upd : heap -> nat -> nat -> heap * outcome) (h : heap) (n : 
   end.
 End SetUpdate.
 
+Fixpoint fold_out {A} (stepf : heap -> A -> heap * outcome) (h : heap) (l : list A) : heap * outcome :=
+  match l with
+  | [] => (h, Done)
+  | x :: t => match stepf h x with (h1, Done) => fold_out stepf h1 t | bad => bad end
+  end.
+
+(* one (key, value) item of the source in update's loop *)
+Definition upd_entry (rec rec_best : heap -> nat -> nat -> heap * outcome) (clone inpl : bool) (dst : nat)
+  (h0 : heap) (kv : string * ref) : heap * outcome :=
+  let '(k, v) := kv in
+  match (if clone then deep_clone (fuel_of h0) h0 v else Some (h0, v)) with
+  | None => (h0, Raised EFuel)
+  | Some (h1, v1) =>
+      let target := match get_node h1 dst with Some nd1 => ents_get (nents nd1) k | None => None end in
+      match target, v1 with
+      | Some (RNode t_), RNode s_ => rec h1 t_ s_
+      | _, _ => set_str rec_best h1 dst k v1 (if inpl then IBest else IFalse)
+      end
+  end.
+
 Fixpoint update_n (fuel : nat) (clone inpl : bool) (h : heap) (dst src : nat) : heap * outcome :=
   match fuel with
   | 0 => (h, Raised EFuel)
   | S f =>
       match get_node h dst, get_node h src with
       | Some nd, Some ns =>
-          if nlock nd then (h, Raised ELock)                        (* @lock_blocked *)
+          if nlock nd && negb inpl then (h, Raised ELock)          (* @lock_blocked: not blocked when inplace=True is passed *)
           else if Nat.eqb dst src then (h, Done)
-          else
-          (fix go (h0 : heap) (es : list (string * ref)) : heap * outcome :=
-             match es with
-             | [] => (h0, Done)
-             | (k, v) :: t =>
-                 let cl := if clone then deep_clone (fuel_of h0) h0 v else Some (h0, v) in
-                 match cl with
-                 | None => (h0, Raised EFuel)
-                 | Some (h1, v1) =>
-                     let target := match get_node h1 dst with Some nd1 => ents_get (nents nd1) k | None => None end in
-                     let r :=
-                       match target, v1 with
-                       | Some (RNode t_), RNode s_ => update_n f clone inpl h1 t_ s_
-                       | _, _ => set_str (update_n f false true) h1 dst k v1 (if inpl then IBest else IFalse)
-                       end in
-                     match r with
-                     | (h2, Done) => go h2 t
-                     | bad => bad
-                     end
-                 end
-             end) h (nents ns)
+          else fold_out (upd_entry (update_n f clone inpl) (update_n f false true) clone inpl dst) h (nents ns)
       | _, _ => (h, Raised EType)
       end
   end.
@@ -255,7 +254,8 @@ Inductive instr :=
   | IDel (r : nat) (p : path)
   | ILock (r : nat) (b : bool)
   (* views *)
-  | IViewB (r : nat) (nb : nat) (bsel : list nat)                (* basic index, permute, ..., unbind/split pieces *)
+  | IViewB (r : nat) (nb : nat) (bsel : list nat) (pl : bool)    (* basic index, unbind/split pieces (pl = false); permute,
+                                                                    transpose, squeeze, unsqueeze, expand, view (propagate_lock) *)
   | ISelect (r : nat) (ks : list string)
   | IExclude (r : nat) (ks : list string)
   | IShallow (r : nat)                                           (* copy() / clone(False) *)
@@ -263,7 +263,8 @@ Inductive instr :=
   (* fresh results *)
   | IClone (r : nat)                                             (* clone / to_tensordict *)
   | IGather (r : nat) (nb : nat) (bsel : list nat)               (* advanced indexing / masked_select *)
-  | IUnary (r : nat) (f : pf)                                    (* neg, abs, add(c), ... *)
+  | IUnary (r : nat) (f : pf) (pl fe : bool)                     (* neg, abs (pl, no filter); add(c), mul(c) (pl, filter_empty);
+                                                                    apply(fn) (neither) *)
   | IBinary (r : nat) (f : bf) (src : nat)
   | IContig (r : nat).                                           (* contiguous: what torch does on the leaf *)
 
@@ -278,8 +279,8 @@ Definition classify (i : instr) : cls :=
   | IUpdate _ _ _ false => CStruct
   | IUpdate _ _ _ true => CBest
   | IDel _ _ | ILock _ _ => CStruct
-  | IViewB _ _ _ | ISelect _ _ | IExclude _ _ | IShallow _ | IFlatten _ _ => CView
-  | IClone _ | IGather _ _ _ | IUnary _ _ | IBinary _ _ _ => CCopy
+  | IViewB _ _ _ _ | ISelect _ _ | IExclude _ _ | IShallow _ | IFlatten _ _ => CView
+  | IClone _ | IGather _ _ _ | IUnary _ _ _ _ | IBinary _ _ _ => CCopy
   | IContig _ => CRule
   end.
 
@@ -325,6 +326,9 @@ Definition at_writes (h : heap) (dst : ref) (lo : list (path * view)) (nb : nat)
          | _, _ => None
          end
      end) lo.
+
+Definition root_locked (h : heap) (r : ref) : bool :=
+  match r with RNode n => match get_node h n with Some nd => nlock nd | None => false end | RLeaf _ => false end.
 
 Definition step (s : st) (i : instr) : st * outcome :=
   let h := hp s in
@@ -464,39 +468,39 @@ Definition step (s : st) (i : instr) : st * outcome :=
           end
       | None => fail EType
       end
-  | IViewB r nb bsel =>
+  | IViewB r nb bsel pl =>
       match reg s r with
-      | Some d => match map_tree (fuel_of h) (lf_sub nb bsel) h d with
+      | Some d => match map_tree (fuel_of h) (pl && root_locked h d) false (lf_sub nb bsel) h d [] with
                   | Some (h1, x) => (push s h1 x, Done) | None => fail EFuel end
       | None => fail EType
       end
   | IShallow r =>
       match reg s r with
-      | Some d => match map_tree (fuel_of h) lf_same h d with
+      | Some d => match map_tree (fuel_of h) false false lf_same h d [] with
                   | Some (h1, x) => (push s h1 x, Done) | None => fail EFuel end
       | None => fail EType
       end
   | IClone r =>
       match reg s r with
-      | Some d => match map_tree (fuel_of h) lf_copy h d with
+      | Some d => match map_tree (fuel_of h) false false lf_copy h d [] with
                   | Some (h1, x) => (push s h1 x, Done) | None => fail EFuel end
       | None => fail EType
       end
   | IGather r nb bsel =>
       match reg s r with
-      | Some d => match map_tree (fuel_of h) (lf_gather nb bsel) h d with
+      | Some d => match map_tree (fuel_of h) false false (lf_gather nb bsel) h d [] with
                   | Some (h1, x) => (push s h1 x, Done) | None => fail EFuel end
       | None => fail EType
       end
-  | IUnary r f =>
+  | IUnary r f pl fe =>
       match reg s r with
-      | Some d => match map_tree (fuel_of h) (lf_un f) h d with
+      | Some d => match map_tree (fuel_of h) (pl && root_locked h d) fe (lf_un f) h d [] with
                   | Some (h1, x) => (push s h1 x, Done) | None => fail EFuel end
       | None => fail EType
       end
   | IContig r =>
       match reg s r with
-      | Some d => match map_tree (fuel_of h) lf_contig h d with
+      | Some d => match map_tree (fuel_of h) false false lf_contig h d [] with
                   | Some (h1, x) => (push s h1 x, Done) | None => fail EFuel end
       | None => fail EType
       end
@@ -508,19 +512,10 @@ Definition step (s : st) (i : instr) : st * outcome :=
               match pair_all ls lo with
               | None => fail EKey
               | Some _ =>
-                  (* same structure as the receiver; each leaf computed from the receiver's and other's leaf of the same key *)
-                  match map_tree (fuel_of h) lf_copy h d with
+                  (* same structure as the receiver (empty nested nodes dropped); fresh leaves *)
+                  match map_tree (fuel_of h) (root_locked h d) true (lf_bin f lo) h d [] with
+                  | Some (h1, x) => (push s h1 x, Done)
                   | None => fail EFuel
-                  | Some (h1, x) =>
-                      match leaves_of h1 x with
-                      | None => fail EFuel
-                      | Some lx =>
-                          match pair_all lx lo with
-                          | Some prs => let r1 := write_list true h1 (map (fun vo => (fst vo, WBin f (snd vo))) prs) in
-                                        (push s (fst r1) x, snd r1)
-                          | None => fail EKey
-                          end
-                      end
                   end
               end
           | _, _ => fail EFuel
